@@ -23,7 +23,7 @@ LOCK_TRUSTED = ["modelled, not verified: Go select / channel / sync/atomic seman
                 "C01Exec.handle_sound / replay_reach: every trace the driver accepts is a Lock.Step execution, so the theorems about Reach apply to every replayed state"]
 LOCK_RULE_RT = (" PLUS real-time scenarios on the real in-memory storage with lease 300 ms (thorough: more phases): holder holds 6 lease periods with a contender of another provider waiting {steady; a transient error injected on the k-th renewal CasByVersion, k=1..3 (thorough ..6)}; holder death at two phases of the renewal cycle (its renewals stop reaching the storage) -> contender must acquire within 3 leases; Unlock racing a due renewal -> at most one more renewal call, none successful; a failing scenario is re-run twice alone with a doubled lease and reported only if it fails both times (timing-flake filter)")
 LOCK_EXPL = {"C01": "C01.mutex (any N, any sharing, any interleaving, unbounded faults), holder_owns_record, locker_serialised, counter_exact; mutex_needs_timely_unlock is the kernel-checked KF-1 history",
-             "C04": "C04.no_residue, token_exact, record_has_live_owner, no_deadlock, handoff, after_shutdown_no_acquire, fail_path_restores on fault-free runs; C04.service_reachable / everyone_can_be_served (AG EF served: from EVERY reachable state every acquiring caller with a live context can still be served by a finite continuation; all of them one after the other)",
+             "C04": "C04.no_residue, token_exact, record_has_live_owner, no_deadlock, handoff, after_shutdown_no_acquire, fail_path_restores on fault-free runs; C04.service_reachable / everyone_can_be_served (AG EF served: from EVERY reachable state every acquiring caller with a live context can still be served by a finite continuation; all of them one after the other); C04Fair (infinite fault-free executions with stuttering, weak fairness of a goroutine's internal steps): no_lost_wakeup / wakeup_delivered (a caller in Storage.Create / WaitForVersionChange with a live context cannot sit there while the lock stays free: the lock stays free only until some caller, possibly another, creates the record and acquires), no_lost_token / token_is_taken, cancelled_waiter_returns, shutdown_waiter_returns, section_is_left, unlock_completes (record gone, token back), failure_returns_token, free_lock_is_taken, lock_gets_free + released_lock_is_taken (all goroutines fair, every holder eventually unlocks: some waiting caller acquires), lock_keeps_being_taken (either THIS caller acquires or acquisitions go on for ever: with finite programs every caller gets it); negative result overtaken_forever: a particular caller CAN be overtaken for ever by a caller that re-locks again and again, even under strong fairness of its own steps (wake-up and Create are two steps) — the lock has no queue",
              "C05": "C05Timed.lease_kept (timed model over the lease constants REGENERATED from kvlock.go: renewal at L/2, retry at L/8, deadline from a fresh clock reading inside the retry loop: the record never lapses while held, for any hold duration and up to m consecutive transient failures under the margin), default_config_tolerates (10 s lease, 500 ms lateness, 2 failures), default_margin_tight, stale_deadline_lapses (negative), code_constants; C05.lease_chain_alive_partial (renewal chain never dies while held, under the stated timing assumption), renewal_dies_after_unlock_partial, dead_holder_released, lease_margin; reply_lost_breaks_chain = KF-3; the full-strength statements lease_chain_alive_full / renewal_dies_after_unlock_full are REFUTED in Lean (early-fire race; unbounded leftovers in an untimed model); C05Cell (Model/LeaseCell: storage answers arrive arbitrarily late, Unlock + Lock in between, other providers): chain_alive_late_answers and chain_alive_current_errors (renewal chain alive while held), held_has_record, chain_alive_refuted (stale renewal + two transient errors: negative), swap_variant_breaks_chain (negative: the seeded Swap variant), code_skeleton (decide over the order of future/timer/storage operations REGENERATED from kvlock.go)"}
 
 PROPS = {
@@ -160,7 +160,7 @@ PROPS = {
     "C04": dict(
         # only when the instrumented harness cannot be built against /repo: public API, default 10 s lease (about 40 s)
         api_fallback=[dict(comp="lockapi", decisive=lambda d: d["op"].startswith("mon C04"), timeout=300)],
-        lean=["GolibsVerif.Props.C04", "GolibsVerif.Props.C04Live", "GolibsVerif.Props.C01Exec"],
+        lean=["GolibsVerif.Props.C04", "GolibsVerif.Props.C04Live", "GolibsVerif.Props.C04Fair", "GolibsVerif.Props.C01Exec"],
         seq=[],
         go_cmds=("seq", "conc"),
         conc=[dict(comp="lock", driver="locktrace", args=["-focus", "C04"],
@@ -245,7 +245,7 @@ PROPS = {
         assumptions=["WaitForVersionChange is excluded here (C07)", "no expiries in the concurrent runs (expiry is C06)", "Redis: each single command is atomic and EXEC after WATCH fails iff the key changed (miniredis / Redis semantics)"],
         trusted=["modelled, not verified: sync.Mutex (a critical section is atomic and lies between the call's invocation and response), go-redis, miniredis", "skeleton fact regenerated from inmem.go: every exported method except WaitForVersionChange is `s.lock.Lock(); defer s.lock.Unlock()`",
                  "the witness search (Go transcription of the contract) is untrusted: the Lean driver validates every witness"],
-        explanation="LinThm.order_is_sequential / order_respects_real_time (any object whose operations take effect in one atomic step is linearizable in step order) + C03 refinements + C02 contract facts for all histories (fresh_versions, cas_same_version_at_most_once, racing_creators_one_winner, loser_changes_nothing). For Redis: C02Redis.simulates / linearizable — the command-level concurrent model of redis.go (any number of clients, any interleaving of their commands, unboundedly many lost WATCH/EXEC races and Create retries) is a run of the atomic-step system over Kv.Spec, hence linearizable with the contract's results; exec_sees_what_get_saw (the WATCH invariant), lin_once, ret_is_lin_result; the model is tied to redis.go + go-redis + miniredis by the command-level trace replay; free-running histories additionally get per-history Lean-validated witnesses",
+        explanation="LinThm.order_is_sequential / order_respects_real_time (any object whose operations take effect in one atomic step is linearizable in step order) + C03 refinements + C02 contract facts for all histories (fresh_versions, cas_same_version_at_most_once, racing_creators_one_winner, loser_changes_nothing). For Redis: C02Redis.simulates / linearizable — the command-level concurrent model of redis.go (any number of clients, any interleaving of their commands, unboundedly many lost WATCH/EXEC races and Create retries) is a run of the atomic-step system over the TIMED contract (Kv.Spec x clock; a tick is an operation of a clock thread), hence linearizable with the contract's results, with expiries; exec_sees_what_get_saw (the WATCH invariant), lin_once, ret_is_lin_result; putmany_loop_entry / putmany_loop_is_puts / putmany_loop_run (a PutMany with an expiring record is a sequence of complete Puts, one per record, in order, under ANY interleaving: per-key effects), tick_only_outside_ttl_windows, expired_record_invisible_to_all_clients; the model is tied to redis.go + go-redis + miniredis by the command-level trace replay; free-running histories additionally get per-history Lean-validated witnesses",
     ),
     "C07": dict(
         generated=True,   # lock-region fact regenerated from inmem.go: records / waiter table (and the helpers that assume the lock) only under the lock
@@ -314,10 +314,10 @@ MANIFEST_TEXT.update({
     "C13": _t("Lean proofs on a transition system of the dispatcher's worker pool (watcher loop decisions, wake tokens, spawn/exit, discrete time): the watcher counter is exact, whenever a future is pending some watcher is responsible for it (awake, sleeping no longer than until its fire time, or about to receive a wake token) so a due future can always be served, a Call with no watcher starts one, a due backlog spawns, idle watchers exit; the watcher steps strictly decrease a measure at a fixed clock, so every schedule of the watchers reaches within a bounded number of steps a state in which every due future has been started (inevitability without a fairness assumption); tied to the code by replaying real executions of the dispatcher under a virtual clock with harness-controlled timers through the executable model (proved sound). Lateness in wall-clock terms rests on the Go scheduler running the watchers (not mechanised)", "Lean 4 invariant/enabledness proofs over a transition system + trace refinement of real executions under a virtual clock"),
     "C09": _t("Lean proofs on the N-caller transition system of ecache.go: single-flight (at most one creation per key in progress, in-flight table exact), size <= capacity, step-wise forward simulation to the sequential LRU model (results, evictions and callbacks of each linearization point equal the sequential operation's), exact accounting of created/deleted/resident/unpublished values; tied to the code by replaying real executions (instrumented critical sections, gated create function, delete callbacks) through the executable model, proved sound w.r.t. the step relation", "Lean 4 invariant + forward-simulation proofs over an N-process transition system + trace refinement of real executions"),
     "C07": _t("Lean proofs on a small-step model of inmem's WaitForVersionChange + mutators (any number of waiters, keys, writers): verdict soundness, no lost wake-up (a waiter parked on an open channel implies the record still has the awaited version and the channel is the key's current waiter record), exact waiter counts, empty table when nobody waits, isolation of a cancelling waiter; tied to the code by replaying the real critical sections (instrumented lock + goroutine attribution + table snapshots) through the executable model, proved sound w.r.t. the step relation", "Lean 4 inductive-invariant proofs over a small-step model + trace refinement of real critical sections"),
-    "C02": _t("Lean: generic theorem that an object whose operations each take effect in one atomic step is linearizable in step order (real-time respecting, sequentially legal); contract theorems for all histories (fresh versions, at most one CAS winner per version, one winning creator, losers change nothing); in-memory backend: regenerated skeleton fact (each method = one lock region) + instrumented critical-section order replayed by the Lean driver; Redis backend: theorem C02Redis.linearizable — the command-level concurrent model of redis.go (any number of clients, any interleaving of SETNX/GET/SET/MSET/MGET/DEL/WATCH/MULTI-EXEC, unboundedly many lost races and retries) refines the atomic-step system over the contract — tied to redis.go + go-redis + miniredis by replaying real command-level executions (every command parked and released one at a time by a go-redis hook) through the model; free-running Redis histories additionally get a Lean-validated linearization witness. No expiries in the concurrent runs", "Lean 4 linearizability proofs (generic atomic-step theorem + forward simulation of the Redis command-level model) + trace refinement of real command-level executions"),
+    "C02": _t("Lean: generic theorem that an object whose operations each take effect in one atomic step is linearizable in step order (real-time respecting, sequentially legal); contract theorems for all histories (fresh versions, at most one CAS winner per version, one winning creator, losers change nothing); in-memory backend: regenerated skeleton fact (each method = one lock region) + instrumented critical-section order replayed by the Lean driver; Redis backend: theorem C02Redis.linearizable — the command-level concurrent model of redis.go (any number of clients, any interleaving of SETNX/GET/SET [PX]/MSET/MGET/DEL/WATCH/MULTI-EXEC and clock ticks, unboundedly many lost races and retries; PutMany's loop-of-SET path as a sequence of Puts) refines the atomic-step system over the contract — tied to redis.go + go-redis + miniredis by replaying real command-level executions (every command parked and released one at a time by a go-redis hook) through the model; free-running Redis histories additionally get a Lean-validated linearization witness. Expiries and a clock are part of the concurrent model; the clock does not advance between a client computing a relative TTL and the server applying it (one command latency in reality), nor between a CAS's GET and its EXEC (whether the expiry of a WATCHed key fails the EXEC is server specific)", "Lean 4 linearizability proofs (generic atomic-step theorem + forward simulation of the Redis command-level model) + trace refinement of real command-level executions"),
     "C20": _t("Lean proof on a lexical path / small file-system model that UnzipToFolder creates files and directories only inside the destination for ANY archive, and that ZipFolder∘UnzipToFolder reproduces exactly the selected files (path and content); tied to files.go by a differential run on a sandboxed real file system (hostile archives, random trees, all filter/recursive/spelling combinations) with Go-side confinement and round-trip monitors", "Lean 4 proofs over a path/file-system model + model/code correspondence on the real file system"),
     "C01": _t("Lean proof of mutual exclusion for the N-process transition system of kvlock.go (any number of goroutines/Lockers/providers, every interleaving at storage-call granularity, cancellation anywhere, unbounded request-lost/reply-lost faults) under the explicit lease assumption; tied to the code by trace refinement: real kvsLock goroutines run under a controlled scheduler and every recorded trace is replayed through the executable model, which is proved sound w.r.t. the transition relation (C01Exec)", "Lean 4 inductive-invariant proof over an N-process transition system + trace refinement of real executions"),
-    "C04": _t("Lean proofs on fault-free runs: no residue at quiescence, token/counter exact, no orphan record, deadlock freedom (some caller inside a call can always move when nobody holds), hand-off enabledness, no acquisition after shutdown, failure paths restore the Locker, and the branching-time core of liveness (service_reachable / everyone_can_be_served: no reachable state cuts an acquiring caller off — a finite continuation serves it, and all acquiring callers one after the other); tie as C01 plus Go-side residue / stuck / lease-loss monitors. Inevitable service additionally needs a fair scheduler (not expressible over the untimed step relation; not mechanised)", "Lean 4 invariant, enabledness and reachability (AG EF) proofs + trace refinement of real executions"),
+    "C04": _t("Lean proofs on fault-free runs: no residue at quiescence, token/counter exact, no orphan record, deadlock freedom (some caller inside a call can always move when nobody holds), hand-off enabledness, no acquisition after shutdown, failure paths restore the Locker, and the branching-time core of liveness (service_reachable / everyone_can_be_served: no reachable state cuts an acquiring caller off — a finite continuation serves it, and all acquiring callers one after the other); tie as C01 plus Go-side residue / stuck / lease-loss monitors. Inevitability over infinite executions under weak fairness (C04Fair): no lost wake-up in the storage wait, no lost token in the local wait, cancelled / shut-down waiters return, Unlock completes, a released lock is taken by some waiting caller, and either a given caller acquires or acquisitions go on for ever; a given caller can be overtaken for ever by callers that keep re-locking (proved as a counter-run: the lock has no queue)", "Lean 4 invariant, enabledness, reachability (AG EF) and fairness (leads-to over infinite executions) proofs + trace refinement of real executions"),
     "C05": _t("Lean proofs: a TIMED model of the lease over constants regenerated from kvlock.go on every run (renewal and retry divisors, default lease, where the deadline is computed) — the record never lapses while held under the timing margin, the default configuration tolerates two consecutive transient failures at 500 ms lateness, a deadline computed before the wait lapses (negative); the renewal chain stays alive while the lock is held (under the stated timing assumption; the unrestricted statement is refuted in Lean), leftovers after Unlock are stale and die at their next CAS; in a second model where storage answers arrive arbitrarily late (Unlock and re-Lock in between) the chain stays alive for the code's CompareAndSwap discipline and provably dies for a Swap variant, the order of operations on l.future being regenerated from kvlock.go; a lapsed record lets a waiter acquire, timing margin arithmetic; tie as C01 with scheduler-driven timer firing and a Go-side chain-alive monitor. Real-time behaviour (timers, latency) is runtime and not proved", "Lean 4 invariant proofs (partial: timing assumption explicit) + trace refinement of real executions"),
 })
 
